@@ -130,7 +130,11 @@ func TestC32(t *testing.T) {
 		if isBlocking {
 			run.Observe("blocking_judged", 1)
 			if !f.Block {
-				run.Violation("blocking-not-tagged", name+"|"+ps, w)
+				key := name + "|" + root.Name
+				if _, opt := blockingWithToken[name]; opt {
+					key += "|BLOCK"
+				}
+				run.Violation("blocking-not-tagged", key, w)
 			}
 		} else if f.Block && known {
 			overBlock[name+" via "+blockCause(path)] = true
@@ -215,7 +219,7 @@ func TestC32(t *testing.T) {
 
 	// random option walks: combinations of options
 	rng := run.Rand("walks")
-	walks := run.N(40000, 2000000)
+	walks := run.N(300000, 6000000)
 	for i := 0; i < walks; i++ {
 		root := g.Builder.Edges[rng.Intn(len(g.Builder.Edges))]
 		if root.Name == "Arbitrary" {
@@ -270,11 +274,16 @@ func TestC32(t *testing.T) {
 	}
 	sort.Strings(rut)
 	classified := 0
-	for _, n := range rootName {
+	var unclRoots []string
+	for r, n := range rootName {
 		if _, k := commandName(strings.Split(n, " ")); k {
 			classified++
+		} else {
+			unclRoots = append(unclRoots, r)
 		}
 	}
+	sort.Strings(unclRoots)
+	run.Extra("unclassified_roots", unclRoots)
 	run.Observe("roots_classified", int64(classified))
 	run.Observe("roots_unclassified", int64(len(rootName)-classified))
 	run.Observe("roots_offering_cache", int64(len(cacheRoots)))
